@@ -540,6 +540,23 @@ def rule_part(ctx: Ctx) -> RuleReport:
             yield from self._walk_drive_items(site_id, folder_id, drive_id=drive_id, parent_path=new_parent_path)
 '''
     _walk_necessary(ctx, rep, wk)
+    # several requested folders may overlap (Reports, Reports/2024): every file exactly once
+    lf = methods.get("list_files_filtered")
+    if lf is None:
+        raise AnalysisError("C18-PART: list_files_filtered vanished")
+    tf = {n.targets[0].id for n in walk_own(lf.node) if isinstance(n, ast.Assign) and len(n.targets) == 1 and isinstance(n.targets[0], ast.Name) and isinstance(n.value, ast.Call) and (dotted(n.value.func) or "").endswith("get_target_folders")}
+    floops = [l for l in walk_own(lf.node) if isinstance(l, ast.For) and isinstance(l.iter, ast.Name) and l.iter.id in tf]
+    if not floops:
+        raise AnalysisError("C18-PART: the loop over the requested folders of list_files_filtered was not found")
+    for l in floops:
+        sets = {n.targets[0].id if isinstance(n, ast.Assign) else n.target.id for n in walk_own(lf.node) if (isinstance(n, ast.Assign) and len(n.targets) == 1 and isinstance(n.targets[0], ast.Name) or isinstance(n, ast.AnnAssign) and isinstance(n.target, ast.Name))
+                and isinstance(n.value, ast.Call) and (dotted(n.value.func) or "") == "set" and not n.value.args}
+        tested = any(isinstance(c, ast.Compare) and isinstance(c.ops[0], ast.In) and isinstance(c.comparators[0], ast.Name) and c.comparators[0].id in sets and any(isinstance(a, ast.Attribute) and a.attr == "id" for a in ast.walk(c.left)) for c in ast.walk(l))
+        added = any(isinstance(c, ast.Call) and isinstance(c.func, ast.Attribute) and c.func.attr == "add" and isinstance(c.func.value, ast.Name) and c.func.value.id in sets for c in ast.walk(l))
+        if tested and added:
+            rep.ok({"list_files_filtered": "files of overlapping folder_paths are reported once (seen item ids)"})
+        else:
+            rep.fail(Finding("C18-PART", CL, lf.qual, "requested folders walked without de-duplication", "each requested folder is walked on its own and everything found is yielded: with overlapping folder_paths ('Reports' and 'Reports/2024') the files of the inner folder are returned twice", line=l.lineno))
     # a listing restricted to a folder reports files under the path the caller asked for (the folder item's own `name` is only its
     # last component)
     wf = methods.get("_walk_and_filter")
